@@ -82,6 +82,34 @@ impl BisyncStateDb {
         Ok(db_dir)
     }
 
+    /// Open an existing state database read-only (for dry runs): nothing is
+    /// created or modified; `None` when no database exists for this pair
+    pub fn open_existing_read_only(source: &Path, dest: &Path) -> Result<Option<Self>> {
+        let sync_pair_hash = Self::generate_sync_pair_hash(source, dest);
+        let cache_dir = if let Ok(xdg_cache) = std::env::var("XDG_CACHE_HOME") {
+            PathBuf::from(xdg_cache)
+        } else if let Ok(home) = std::env::var("HOME") {
+            PathBuf::from(home).join(".cache")
+        } else {
+            return Ok(None);
+        };
+        let db_path = cache_dir
+            .join("sy")
+            .join("bisync")
+            .join(format!("{}.db", sync_pair_hash));
+        if !db_path.exists() {
+            return Ok(None);
+        }
+        let conn = Connection::open_with_flags(
+            &db_path,
+            rusqlite::OpenFlags::SQLITE_OPEN_READ_ONLY,
+        )?;
+        Ok(Some(Self {
+            conn,
+            sync_pair_hash,
+        }))
+    }
+
     /// Open or create bisync state database for source/dest pair
     pub fn open(source: &Path, dest: &Path) -> Result<Self> {
         let sync_pair_hash = Self::generate_sync_pair_hash(source, dest);
